@@ -77,6 +77,10 @@ pub struct Options {
     pub max_wall_s: u64,
     pub write_evidence: bool,
     pub no_ref: bool,
+    /// fraction of the default run count (second-profile runs)
+    pub scale: f64,
+    /// recorded in replay files so that `check --replay` picks the same build
+    pub profile_tag: String,
 }
 
 pub struct KnownFinding {
@@ -327,8 +331,8 @@ fn fault_inst(f: &Fault) -> u32 {
 
 pub fn run_property(prop: &Prop, opt: &Options) -> i32 {
     let t0 = Instant::now();
-    let runs = opt.runs.unwrap_or_else(|| (prop.runs)(opt.tier));
-    println!("frostsim property={} tier={} VERIF_SEED={} runs={} jobs={}", prop.id, opt.tier.name(), opt.seed, runs, opt.jobs);
+    let runs = opt.runs.unwrap_or_else(|| (((prop.runs)(opt.tier) as f64) * opt.scale).max(1.0) as u64);
+    println!("frostsim property={} tier={} VERIF_SEED={} runs={} jobs={} build_profile={}", prop.id, opt.tier.name(), opt.seed, runs, opt.jobs, opt.profile_tag);
     let known = load_known(&opt.verif_dir);
     if let Some(prep) = prop.prepare {
         if let Err(e) = prep(opt) {
@@ -498,6 +502,13 @@ pub fn run_property(prop: &Prop, opt: &Options) -> i32 {
             continue; // one replay per (oracle, suite)
         }
         let (min_scen, min_v, min_d) = if v.oracle.ends_with("reference_mismatch") { (scen.clone(), v.clone(), *digest) } else { minimise(prop, scen, v, *digest) };
+        let mut min_scen = min_scen;
+        if opt.profile_tag != "dev" {
+            if !min_scen.extra.is_object() {
+                min_scen.extra = json!({});
+            }
+            min_scen.extra["build_profile"] = json!(opt.profile_tag);
+        }
         let path = write_replay(&opt.verif_dir, &min_scen, &min_v, min_d);
         println!("VIOLATION property={} replay={}", prop.id, path);
         println!("  oracle={} suite={} seed={} run={} detail={}", min_v.oracle, scen.suite, scen.seed, scen.run, min_v.detail);
@@ -543,6 +554,7 @@ pub fn run_property(prop: &Prop, opt: &Options) -> i32 {
                 "known_findings_hit": known_hits.iter().cloned().collect::<Vec<_>>(),
                 "harness_errors": harness_errors,
                 "jobs": opt.jobs,
+                "build_profile": opt.profile_tag,
             },
             "assumptions": prop.assumptions,
             "wall_s": wall,
